@@ -282,6 +282,91 @@ def check_gridfunction_methods(ctx, meshname, mesh, grid, spaces):
                 break
 
 
+def check_gridfunction_histories(ctx, meshname, mesh, grid, depth):
+    """E2: a GridFunction is a lazy, stateful object (primal / dual representation, cached vectors).  Every history of method calls up to
+    `depth` from every way of constructing it is replayed on a fresh object; each observation is compared with direct quadrature of the
+    function the object represents.  States are de-duplicated by the set of representations materialised so far (the reference model)."""
+    import collections
+
+    import bempp_cl.api as bem
+
+    v, e, d = mesh
+    vol = R.geometry(v, e)["volumes"]
+    loc, w = loc_rule()
+    closed = R.is_closed_manifold(e)
+    families = [("P1", {"kind": "P1", "inc": True, "trunc": True, "sel": ("all",)}, [{"kind": "DP0", "sel": ("all",)}, {"kind": "DP1", "sel": ("all",)}])]
+    if closed:
+        families.append(("RWG", {"kind": "RWG", "inc": True, "trunc": True, "sel": ("all",)}, [{"kind": "SNC", "inc": True, "trunc": True, "sel": ("all",)}]))
+    for kind, spec, dual_specs in families:
+        space = SP.make_space(grid, spec)
+        n = space.global_dof_count
+        duals = {"own": space}
+        for ds in dual_specs:
+            duals[ds["kind"]] = SP.make_space(grid, ds)
+        G = {k: gram(mesh, D, space) for k, D in duals.items()}
+        F = SP.global_functions(space, loc)
+        Fc = SP.global_functions(space, np.array([[1 / 3], [1 / 3]]))
+        c = np.cos(np.arange(n) * 0.8 + 0.3) + (1j * np.sin(np.arange(n) * 0.5) if kind == "P1" else 0.0)
+        want = {"coeff": c, "l2": float(np.sqrt(np.real(np.conj(c) @ G["own"] @ c))),
+                "integrate": sum(vol[t] * np.einsum("p,cpj,j->c", w, F[t], c) for t in F)}
+        for k in duals:
+            want["proj:" + k] = G[k] @ c
+        wc = np.zeros((CODIM[kind], e.shape[1]), dtype=complex)
+        for t in Fc:
+            wc[:, t] = Fc[t][:, 0, :] @ c
+        want["centers"] = wc
+        methods = ["coeff", "proj", "integrate", "l2", "centers"] + ["proj:" + k for k in duals]
+
+        def construct(how):
+            if how == "coefficients":
+                return bem.GridFunction(space, coefficients=c.copy()), "own"
+            dk = how.split(":")[1]
+            return bem.GridFunction(space, projections=(G[dk] @ c).copy(), dual_space=duals[dk]), dk
+
+        inits = ["coefficients", "projections:own"] + ["projections:" + k for k in duals if k != "own" and G[k].shape[0] == n and np.linalg.cond(G[k]) < 1e6]
+        scale = {m: float(np.max(np.abs(np.asarray(want["proj:own" if m == "proj" else m])))) or 1.0 for m in methods}
+        for how in inits:
+            seen = set()
+            frontier = collections.deque([()])
+            while frontier:
+                hist = frontier.popleft()
+                if len(hist) >= depth:
+                    continue
+                for m in methods:
+                    h2 = hist + (m,)
+                    gf, own_dual = construct(how)
+                    case = {"sub": "gridfunction-history", "mesh": meshname, "space": kind, "constructed_from": how, "history": list(h2)}
+                    sig = "gridfunction-history/%s/%s/%s" % (kind, how.split(":")[0], m.split(":")[0])
+                    try:
+                        got = None
+                        for step in h2:
+                            if step == "coeff":
+                                got = np.asarray(gf.coefficients).reshape(-1)
+                            elif step == "proj":
+                                got = np.asarray(gf.projections()).reshape(-1)
+                            elif step.startswith("proj:"):
+                                got = np.asarray(gf.projections(duals[step[5:]])).reshape(-1)
+                            elif step == "integrate":
+                                got = np.asarray(gf.integrate()).reshape(-1)
+                            elif step == "l2":
+                                got = gf.l2_norm()
+                            elif step == "centers":
+                                got = np.asarray(gf.evaluate_on_element_centers())
+                    except Exception as exc:  # noqa: BLE001
+                        ctx.violation(sig + "/exception:" + type(exc).__name__, case, repr(exc))
+                        continue
+                    ctx.transitions += 1
+                    ctx.case((meshname, "gfh", kind, how, h2), sub="gridfunction-history", sample=case if len(ctx.samples) < 3 and len(h2) == 3 else None)
+                    ref = want["proj:" + own_dual] if m == "proj" else want[m]
+                    ctx.check_close(sig, case, got, ref, 1e-10, "gridfunction-history", scale=scale[m] if m != "proj" else float(np.max(np.abs(ref))) or 1.0)
+                    # reference model of the object's state: which vectors it may have materialised / cached
+                    canon = frozenset(h2)
+                    if canon not in seen:
+                        seen.add(canon)
+                        ctx.states += 1
+                        frontier.append(h2)
+
+
 def check_multiplication(ctx, meshname, mesh, grid):
     import bempp_cl.api as bem
     from bempp_cl.api.assembly.boundary_operator import MultiplicationOperator
@@ -345,11 +430,14 @@ def run(ctx):
             check_projection(ctx, name, mesh, grid, quick)
         check_gridfunction_methods(ctx, name, mesh, grid, [x for x in spaces if x[0]["sel"][0] == "all" or x[0]["kind"] in ("P1", "RWG")])
         check_multiplication(ctx, name, mesh, grid)
+        if name in ("tet", "fan5") or not quick:
+            check_gridfunction_histories(ctx, name, mesh, grid, 3 if (quick or mesh[1].shape[1] > 12) else 4)
     ctx.assumptions += ["exact Gram matrices = degree-4 exact rule applied to the basis functions as evaluated through the public path (C09 validates them)",
                         "identity checked only for orders that integrate the product exactly (degree_test + degree_trial <= order)"]
     return ctx.finish(rule="mesh x all ordered pairs of {DP0,DP1,P1,RWG,SNC} (+segment variants) of equal codomain x every quadrature order with exact "
                       "integration; Laplace-Beltrami; callables over all decorator flag combinations; grid-function methods for every unit coefficient "
-                      "vector; MultiplicationOperator in component and inner mode; distinct = distinct tuples")
+                      "vector; MultiplicationOperator in component and inner mode; grid-function call histories (coefficients, projections onto its own and "
+                      "other dual spaces, integrate, l2_norm, evaluate) to depth 3 (4) from every construction mode; distinct = distinct tuples")
 
 
 def replay(ctx, case):
